@@ -2,14 +2,19 @@
 from props import _gencommon as G
 import common as C
 ID = "C15"
-COQ_TARGETS = ["Gen/Forward.vo", "Proofs/JacobianFD.vo", "Properties/C15.vo"]
-THEOREMS = ["C15_position_column", "C15_position_column_base", "C15_rotation_column", "C15_fd_bound"]
+COQ_TARGETS = ["Gen/Forward.vo", "Proofs/JacobianFD.vo", "Exec/JacUse.vo", "Properties/C15.vo"]
+THEOREMS = ["C15_position_column", "C15_position_column_base", "C15_rotation_column", "C15_fd_bound",
+            "C15_torques_virtual_work", "C15_torques_unit_row", "C15_torques_linear", "C15_velocities_reproduce", "C15_velocities_error_iff",
+            "C15_entry_points_agree"]
 LEVEL_TEXT = ("Coq theorems (Coquelicot derivatives) for every parameter set, sign/offset convention, joint vector, joint index, coordinate and "
               "tool offset, about forward kinematics regenerated from the source: the derivative of the tool point w.r.t. joint i is "
               "sign_i * (axis_i x (point - origin_i)) with axis/origin taken from the per-link poses, also behind any base transform; perturbing "
               "joint i by e rotates the flange about that axis by sign_i*e exactly, so the rotation-log column has no truncation error; "
               "the forward-difference quotient of any coordinate of the tool point differs from the geometric column by at most |e| times "
-              "the lever arm for every step |e| <= 1 (C15_fd_bound)")
+              "the lever arm for every step |e| <= 1 (C15_fd_bound); model of the uses of the matrix (velocities_from_vector with inverse / "
+              "pseudo-inverse fallback, torques_from_vector, isometry and fixed entry points): torques do the wrench's virtual work on every joint "
+              "velocity (J^T), are linear, read out the rows for unit wrenches; velocities reproduce the twist whenever try_inverse answers "
+              "(contract: right inverse), an error only when neither inverse exists; entry points delegate")
 LEVEL_NOTE = (G.NOTE + "; compute_jacobian itself is tied by certified spot checks: Coq proves with Interval that every entry of the matrix the "
               "implementation built is within eps * reach of the geometric column of the generated FK; nalgebra's scaled_axis / try_inverse / "
               "SVD are not modelled: the harness also compares Jacobian::new column by column with the geometric Jacobian of the independent link chain within "
@@ -19,7 +24,8 @@ RULE = ("random robots (signs, offsets, b != 0) x joint vectors x eps in {1e-7,1
         "wrenches; non-trivial = robots with a wrapper or a sign/offset; distinct = distinct cases")
 EXPLANATION = LEVEL_NOTE
 ASSUMPTIONS = ["nalgebra's scaled_axis of an axis-angle rotation is angle * axis (rotation rows)"]
-PARTIAL = ["velocities (inverse / pseudo-inverse), torques (transpose) and the isometry-to-vector conversion: oracle only"]
+PARTIAL = ["nalgebra's try_inverse / SVD pseudo-inverse and scaled_axis are oracle parameters of the model (their recorded answers are replayed at Q: "
+           "J*Jinv*x = x within cond*1e-9 exactly evaluated); the pseudo-inverse branch (singular matrix) is exercised by the oracle only"]
 TRUSTED_EXTRA = ["Coquelicot (real analysis library; its axioms are those of the Reals standard library)"]
 _corr, search = G.make("C15", sample_keys=("case", "eps", "wrappers", "diff", "tol", "cond", "direct"))
 
@@ -38,8 +44,8 @@ def spot_file(r):
             "a2; interval with (i_prec 90).\n")
     g = [C.f64(h) for h in P["geom"]]
     reach = sum(abs(x) for x in g) + 1.0
-    tol_p = C.rlit(C.Fraction(int(math.ceil((eps * reach + 1e-8 + 4e-10 / eps) * 1e9)), 10 ** 9))
-    tol_r = C.rlit(C.Fraction(int(math.ceil((1e-8 + 4e-10 / eps) * 1e9)), 10 ** 9))
+    tol_p = C.rlit(C.Fraction(int(math.ceil((eps * reach + 1e-8 + 2e-13 / eps * reach) * 1e10)), 10 ** 10))
+    tol_r = C.rlit(C.Fraction(int(math.ceil((1e-8 + 2e-13 / eps) * 1e10)), 10 ** 10))
     n = 0
     for i in range(6):
         for k in range(3):
@@ -67,4 +73,43 @@ def correspondence(tier, seed, n=None):
         else:
             res["compared"] += 1
     res["distribution"]["jacobian_spot_goals"] = 36 * len(chosen)
+    # uses of the matrix: replay torques / velocities on the model at Q with the recorded matrix and try_inverse answer
+    urecs = [r for r in C.run_harness(["C15", tier, seed + 5, 4000 if tier == "thorough" else 800]) if r.get("use")]
+
+    def qmat(rows):
+        return "[" + "; ".join(C.qlist([C.frac(h) for h in row]) for row in rows) + "]"
+    exprs = [f"run_jacuse {qmat(r['use']['m'])} {qmat(r['use']['jinv']) if r['use']['jinv'] else '[]'} {C.qlist([C.frac(h) for h in r['use']['x']])}" for r in urecs]
+    outs = C.coq_eval("c15u", "From VF Require Import Exec.JacUse.", exprs, shard=25)
+    nuse = 0
+    for r, zs in zip(urecs, outs):
+        u = r["use"]
+        x = [C.f64(h) for h in u["x"]]
+        xn = sum(a * a for a in x) ** 0.5
+        cond = float(r["cond"])
+        tq_m = [float(C.unq(zs, 2 * i)) for i in range(6)]
+        tq_i = [C.f64(h) for h in u["tq"]]
+        scale = 1.0 + max(abs(a) for a in tq_m)
+        why = None
+        if any(abs(a - b) > 1e-12 * scale for a, b in zip(tq_m, tq_i)):
+            why = f"torques: model J^T F = {tq_m}, implementation {tq_i}"
+        elif zs[12] == 0:
+            if u["vel"] is not None:
+                why = "velocities: try_inverse gave no answer for a unit twist but velocities_from_vector answered"
+        elif u["vel"] is None:
+            why = "velocities: try_inverse answered but velocities_from_vector returned an error"
+        else:
+            v_m = [float(C.unq(zs, 13 + 2 * i)) for i in range(6)]
+            v_i = [C.f64(h) for h in u["vel"]]
+            res_m = [float(C.unq(zs, 25 + 2 * i)) for i in range(6)]
+            vs = 1.0 + max(abs(a) for a in v_m)
+            if any(abs(a - b) > 1e-9 * vs for a, b in zip(v_m, v_i)):
+                why = f"velocities: model Jinv*x = {v_m}, implementation {v_i}"
+            elif sum(a * a for a in res_m) ** 0.5 > 1e-10 * cond * (1.0 + xn):
+                why = f"velocities do not reproduce the twist: exact residual J*(Jinv*x) - x = {res_m} (cond {cond:.3g})"
+        if why:
+            res["disagreements"].append({"why": why, "record": {k: r[k] for k in ("case", "robot", "q", "eps", "cond", "use", "_args") if k in r}})
+        else:
+            res["compared"] += 1
+            nuse += 1
+    res["distribution"]["matrix_use_replays"] = nuse
     return res
